@@ -687,6 +687,7 @@ def _lexmodel_streams(ctx, progs, small):
     reqs += [LX(i, p) for i, p in enumerate(progs[: nl // 2])]
     for t in small[: 10 if quick else 150]:
         reqs.append(LC.lexreq(G.mutate(rngl, t), "m", 0))
+    reqs += [LC.lexreq(t + "\n", "m", 0) for t in _softkw_soups(ctx)]
     out.append(Stream("lexmodel-invalid-families", reqs, kind="malformed", driver="drv_c05", harness=plain,
                       note="mutations, token soups, random Unicode, valid programs, mutated stdlib files; modes and offsets rotated"))
     reqs = []
@@ -803,6 +804,11 @@ def streams(ctx):
     reqs = [r for r in reqs if not _is_blank_expr(r)]
     out.append(Stream("token-soups", reqs, kind="malformed", compare=False,
                       note="random sequences of keywords, operators, names, good and bad numbers/strings, layout"))
+    sk = _softkw_soups(ctx)
+    out.append(Stream("softkw-bracket-soups", [T("m", 0, t + "\n") for t in sk] + [T("i", 1, t) for t in sk[::3]], kind="exhaustive",
+                      compare=False, exhaustive=True,
+                      note="line-initial type/match/case followed by every sequence of <= %d symbols over brackets, '=', ':', ',', "
+                           "name, lambda (the soft-keyword look-ahead counts brackets on its own)" % (4 if quick else 5)))
     rngu = ctx.rng("unicode")
     reqs = [_rot(i, G.random_unicode(rngu)) for i in range(4000 if quick else 400000)]
     reqs = [r for r in reqs if not _is_blank_expr(r)]
@@ -827,6 +833,20 @@ def streams(ctx):
                       note="doubling ladder 10k..%s bytes for %d shapes; fitted exponents under coverage.timing_ladder; only a "
                            "run above 60 s at >= 1M bytes (thorough tier) fails" % ("160k" if quick else "1.28M", len(LADDER_SHAPES))))
 
+    return out
+
+
+def _softkw_soups(ctx):
+    """every short sequence of brackets / colon / equals / names after a line-initial soft keyword: the look-ahead of
+    soft_keywords.rs keeps its own bracket counters, independent of the lexer's nesting count"""
+    syms = ["[", "]", "(", ")", "{", "}", "=", ":", "x", ",", " lambda "]
+    L = 4 if ctx.quick else 5
+    heads = ["type X", "type X[", "match ", "case ", "match x", "type type", "type"]
+    out = []
+    for h in heads:
+        for n in range(0, L + 1):
+            for tup in itertools.product(syms if n <= 3 else syms[:8], repeat=n):
+                out.append(h + "".join(tup))
     return out
 
 
